@@ -162,12 +162,56 @@ func TestVerif_C10(t *testing.T) {
 		r.Case(id, c)
 		var vkind, vdet string
 		p, leftover := vk.InBubble(t, func() {
-			g := newSrvRig(t, srvOpts{Bypass: [][]byte{c.UID}, Methods: map[string][]string{"shadowsocks": {"tcp", "10.0.0.1:1111"}, "openvpn": {"tcp", "10.0.0.1:1111"}}})
+			nbUID := randUID(rng)
+			g := newSrvRig(t, srvOpts{Bypass: [][]byte{c.UID, nbUID}, Methods: map[string][]string{"shadowsocks": {"tcp", "10.0.0.1:1111"}, "openvpn": {"tcp", "10.0.0.1:1111"}}})
 			defer g.cleanup()
 			var mu sync.Mutex
 			var cks []*vk.Pipe
+			// variants: "stall" - the path server->client stops delivering for 7 virtual seconds while the
+			// server is in the middle of a record (bounded window), then resumes; "neighbour" - a second
+			// user's connection is reset under the server's write while this session keeps running
+			variant := map[int]string{5: "stall", 6: "neighbour"}[i%8]
+			if c.UDP {
+				variant = ""
+			}
+			if variant == "neighbour" {
+				defer runtime.GOMAXPROCS(runtime.GOMAXPROCS(1)) // buffer pools are per-P
+			}
+			var hookMu sync.Mutex
+			srvWrites, fired := 0, false
+			g.net.BeforeWrite = func(cn *vk.Conn) {
+				pp := cn.Pipe()
+				if cn.Side() != 1 || (variant == "stall" && pp.Name != "ck") || (variant == "neighbour" && pp.Name != "nb") || variant == "" {
+					return
+				}
+				hookMu.Lock()
+				srvWrites++
+				hit := !fired && srvWrites == 6
+				if hit {
+					fired = true
+				}
+				hookMu.Unlock()
+				if !hit {
+					return
+				}
+				if variant == "stall" {
+					pp.Stall(1, true)
+					r.Count("forced_delivery_stalls", 1)
+					go func() { time.Sleep(7 * time.Second); pp.Stall(1, false) }()
+				} else {
+					pp.Break("reset")
+					r.Count("forced_neighbour_resets", 1)
+				}
+			}
+			nbDial := false
 			g.lis.OnDial = func(int) vk.PipeOpts {
 				o := vk.PipeOpts{NoCut: true, Name: "ck"}
+				if variant == "stall" {
+					o.Window = 8192
+				}
+				if nbDial {
+					o.Name = "nb"
+				}
 				s1, s2 := rng.Uint64(), rng.Uint64()
 				switch rng.IntN(3) {
 				case 0:
@@ -195,6 +239,36 @@ func TestVerif_C10(t *testing.T) {
 				nst = 1 + rng.IntN(5)
 			}
 			var wg sync.WaitGroup
+			if variant == "neighbour" {
+				// the neighbour: another user with its own session; its connection will be reset under
+				// the server's sixth write to it
+				nc := c
+				nc.UID = nbUID
+				nc.NumConn, nc.SessionID = 1, 4242
+				_, nremote, nauth, err := g.clientConfigs(nc)
+				if err == nil {
+					nbDial = true
+					ns := g.makeSession(nremote, nauth, "direct")
+					nbDial = false
+					if ns != nil {
+						if st, err := ns.OpenStream(); err == nil {
+							wg.Add(1)
+							go func() {
+								defer wg.Done()
+								for k := 0; k < 12; k++ {
+									if _, err := st.Write(make([]byte, 3000)); err != nil {
+										return
+									}
+									st.SetReadDeadline(time.Now().Add(20 * time.Second))
+									if _, err := io.ReadFull(st, make([]byte, 3000)); err != nil {
+										return
+									}
+								}
+							}()
+						}
+					}
+				}
+			}
 			for s := 0; s < nst; s++ {
 				st, err := sesh.OpenStream()
 				if err != nil {
